@@ -41,6 +41,12 @@ func randGUID(r *rand.Rand) [16]byte {
 // buildImage renders the spec. extraEntries random GUID-table entries are mixed around the TDX one.
 func buildImage(r *rand.Rand, sp *spec) []byte {
 	fw := make([]byte, sp.Size)
+	buildImageInto(r, sp, fw)
+	return fw
+}
+
+// buildImageInto renders the spec over fw (len(fw) == sp.Size), whatever fw held before.
+func buildImageInto(r *rand.Rand, sp *spec, fw []byte) {
 	// filler: pseudo-random bytes so that chunk/page order matters
 	var x uint64 = r.Uint64() | 1
 	for i := 0; i+8 <= len(fw); i += 8 {
@@ -87,7 +93,6 @@ func buildImage(r *rand.Rand, sp *spec) []byte {
 		putEntry(e.guid, e.payload, len(e.payload)+tdxref.EntrySize)
 	}
 	writeSections(fw, sp.DescOff, sp.Sections)
-	return fw
 }
 
 // writeSections writes the TDVF metadata GUID, descriptor and section table at descOff.
@@ -178,7 +183,6 @@ func placeMemory(r *rand.Rand, sizes []uint64) []uint64 {
 
 // genSpec draws a model-valid TDVF layout. big allows images above 256 KiB.
 func genSpec(r *rand.Rand) *spec {
-	sp := &spec{Feat: map[string]bool{}}
 	var pages int
 	switch k := r.IntN(100); {
 	case k < 60:
@@ -190,6 +194,12 @@ func genSpec(r *rand.Rand) *spec {
 	default:
 		pages = 512
 	}
+	return genSpecPages(r, pages)
+}
+
+// genSpecPages is genSpec for an image of the given number of pages (>= 2).
+func genSpecPages(r *rand.Rand, pages int) *spec {
+	sp := &spec{Feat: map[string]bool{}}
 	sp.Size = pages * page
 	nsec := 2 + r.IntN(7)
 	types := []uint32{tdxref.TypeBFV, tdxref.TypeTDHOB}
